@@ -124,6 +124,8 @@ func verifRunFault(out *verifkit.Trace, sim *verifsim.Sim, c verifFaultCase, url
 			outcome = "panic"
 		case r.err != nil:
 			outcome, errText = "err", verifkit.Clip(r.err.Error(), 100)
+		case r.item == nil:
+			outcome, errText = "nodoc", "neither a document nor an error"
 		default:
 			outcome = "ok"
 			if tag, _ := r.item["tag"].(string); tag != "doc" {
@@ -133,6 +135,27 @@ func verifRunFault(out *verifkit.Trace, sim *verifsim.Sim, c verifFaultCase, url
 	case <-time.After(limit):
 	}
 	elapsed := time.Since(start)
+	/* the peer recovers; the same address is asked for again: whatever the fault left behind (in the cache)
+	   must not turn the answer into "no document and no error" */
+	again := "skipped"
+	if outcome != "timeout" && (c.kind == "cut" || c.kind == "reset") && c.hops > 0 {
+		verifInstall(sim, c, false)
+		var item map[string]any
+		var err error
+		pan, _ := verifkit.Try(func() {
+			item, _, err = Get(link, verifAcceptActivity, []string{"application/activity+json", "application/ld+json", "application/json"}, 5)
+		})
+		switch {
+		case pan:
+			again = "panic"
+		case err != nil:
+			again = "err"
+		case item == nil:
+			again = "nodoc"
+		default:
+			again = "doc"
+		}
+	}
 	whole := true
 	switch c.kind {
 	case "cut", "reset":
@@ -147,7 +170,7 @@ func verifRunFault(out *verifkit.Trace, sim *verifsim.Sim, c verifFaultCase, url
 		stage = verifStageOf(raw, c.at)
 	}
 	out.Emit(verifkit.M{"ev": "fault", "id": c.id, "hops": c.hops, "hop": c.hop, "kind": c.kind, "at": c.at, "stage": stage,
-		"big": c.big, "outcome": outcome, "whole": whole, "ticks": int(elapsed / verifT), "ms": elapsed.Milliseconds(), "err": errText})
+		"big": c.big, "outcome": outcome, "whole": whole, "ticks": int(elapsed / verifT), "ms": elapsed.Milliseconds(), "err": errText, "again": again})
 }
 
 func TestVerifFaults(t *testing.T) {
